@@ -655,3 +655,302 @@ func combinatorOnlyAndOr(w *load.World, c *core.Collector) {
 		c.Add("MERGE", "set-algebra:only-and-or", core.OK, "", "", props...)
 	}
 }
+
+// registeredOnlyOpen: a shard is put into the registry when nothing can fail any more. An entry
+// registered before the open succeeded stays behind when the open fails: it has no shard and no
+// clean-up routine, every later request finds it and is told the shard is closed, forever.
+func registeredOnlyOpen(w *load.World, c *core.Collector) {
+	props := []string{"C12"}
+	n := 0
+	for _, f := range w.Fns {
+		if load.PkgPath(f) != load.Mod+"/cluster" || f.Synthetic != "" {
+			continue
+		}
+		for _, b := range f.Blocks {
+			for i, in := range b.Instrs {
+				mu, ok := in.(*ssa.MapUpdate)
+				if !ok || !isShardRegistry(mu.Map) {
+					continue
+				}
+				n++
+				bad := ""
+				check := func(r *ssa.Return, rb *ssa.BasicBlock) {
+					if len(r.Results) == 0 {
+						return
+					}
+					last := ssax.ReturnOperand(r, len(r.Results)-1)
+					if !types.Identical(last.Type(), types.Universe.Lookup("error").Type()) {
+						return
+					}
+					if nonNilError(last, rb) {
+						bad = w.At(r)
+					}
+				}
+				for _, later := range b.Instrs[i+1:] {
+					if r, ok := later.(*ssa.Return); ok {
+						check(r, b)
+					}
+				}
+				for _, rb := range f.Blocks {
+					if rb == b || !ssax.Reaches(b, rb) {
+						continue
+					}
+					if r, ok := rb.Instrs[len(rb.Instrs)-1].(*ssa.Return); ok {
+						check(r, rb)
+					}
+				}
+				key := "registered-only-open:" + load.FnKey(f)
+				if bad != "" {
+					c.Add("LIFECYCLE", key, core.Violation, bad, "the function can still fail after it has put the shard into the registry: the entry of a shard whose open failed stays registered without a shard and without a clean-up routine, and every later request for that shard is refused", props...)
+				} else {
+					c.Add("LIFECYCLE", key, core.OK, w.At(in), "", props...)
+				}
+			}
+		}
+	}
+	if n == 0 {
+		c.Add("LIFECYCLE", "anchor:registry-insert", core.Undecided, "", "no insertion into the shard registry found", props...)
+	}
+}
+
+// callbackRuns: a function that is handed an operation on a shard and reports success has run it.
+// A retry loop that falls through returns nil without the callback: the insert "succeeded", the
+// points are in no shard.
+func callbackRuns(w *load.World, c *core.Collector) {
+	props := []string{"C15", "C12", "C17"}
+	n := 0
+	for _, f := range w.Fns {
+		if load.PkgPath(f) != load.Mod+"/cluster" || f.Synthetic != "" || len(f.Blocks) == 0 {
+			continue
+		}
+		var cb *ssa.Parameter
+		for _, p := range f.Params {
+			sig, ok := p.Type().Underlying().(*types.Signature)
+			if !ok || sig.Params().Len() != 1 || sig.Results().Len() != 1 {
+				continue
+			}
+			if strings.HasSuffix(ssax.TypeName(sig.Params().At(0).Type()), "shard.Shard") {
+				cb = p
+			}
+		}
+		if cb == nil {
+			continue
+		}
+		n++
+		calls := map[*ssa.BasicBlock]bool{}
+		for _, b := range f.Blocks {
+			for _, in := range b.Instrs {
+				if call, ok := in.(ssa.CallInstruction); ok && call.Common().Value == ssa.Value(cb) {
+					calls[b] = true
+				}
+			}
+		}
+		// blocks reachable from the entry without passing a call of the callback
+		reach := map[*ssa.BasicBlock]bool{}
+		var stack []*ssa.BasicBlock
+		if !calls[f.Blocks[0]] {
+			reach[f.Blocks[0]] = true
+			stack = append(stack, f.Blocks[0])
+		}
+		for len(stack) > 0 {
+			b := stack[len(stack)-1]
+			stack = stack[:len(stack)-1]
+			for _, s := range b.Succs {
+				if !reach[s] && !calls[s] {
+					reach[s] = true
+					stack = append(stack, s)
+				}
+			}
+		}
+		bad := ""
+		for _, ex := range successExits(f) {
+			if r, ok := ex.In.(*ssa.Return); ok && reach[r.Block()] {
+				bad = w.At(r)
+			}
+		}
+		key := "callback-runs:" + load.FnKey(f)
+		switch {
+		case len(calls) == 0:
+			c.Add("LIFECYCLE", key, core.Violation, w.Position(f.Pos()), "the operation handed in is never called", props...)
+		case bad != "":
+			c.Add("LIFECYCLE", key, core.Violation, bad, "the function can report success without having run the operation it was handed (a way from the entry to this return passes no call of it): the request is acknowledged and nothing was done", props...)
+		default:
+			c.Add("LIFECYCLE", key, core.OK, w.Position(f.Pos()), "", props...)
+		}
+	}
+	if n == 0 {
+		c.Add("LIFECYCLE", "anchor:callback-runs", core.Undecided, "", "no function of the cluster package takes an operation on a shard", props...)
+	}
+}
+
+// replyReadAfterSuccess: what a shard answered is read only when the call succeeded. The reply of
+// a failed call is whatever the handler had filled in before it failed — ids of points of a batch
+// that was then rolled back.
+func replyReadAfterSuccess(w *load.World, c *core.Collector) {
+	props := []string{"C17", "C15"}
+	n := 0
+	var bads []string
+	for _, f := range w.Fns {
+		if load.PkgPath(f) != load.Mod+"/cluster" || f.Synthetic != "" {
+			continue
+		}
+		for _, b := range f.Blocks {
+			for _, in := range b.Instrs {
+				call, ok := in.(*ssa.Call)
+				if !ok {
+					continue
+				}
+				g := call.Call.StaticCallee()
+				if g == nil || !strings.HasPrefix(g.Name(), "RPC") || load.PkgPath(g) != load.Mod+"/cluster" || len(call.Call.Args) < 3 {
+					continue
+				}
+				resp, ok := call.Call.Args[len(call.Call.Args)-1].(*ssa.Alloc)
+				if !ok || ssax.StructOf(resp.Type()) == nil {
+					continue
+				}
+				_, isNil := ssax.NilTests(f, call)
+				if len(isNil) == 0 {
+					continue
+				}
+				n++
+				for _, rb := range f.Blocks {
+					for _, ri := range rb.Instrs {
+						ld, ok := ri.(*ssa.UnOp)
+						if !ok || ld.Op != token.MUL {
+							continue
+						}
+						fa, ok := ld.X.(*ssa.FieldAddr)
+						if !ok || fa.X != ssa.Value(resp) {
+							continue
+						}
+						if !(rb == b && ssax.Precedes(in, ri)) && !(rb != b && ssax.Reaches(b, rb)) {
+							continue
+						}
+						okRead := false
+						for _, e := range isNil {
+							if ssax.OnlyViaEdge(e.From, e.Succ, rb) {
+								okRead = true
+							}
+						}
+						if !okRead {
+							bads = append(bads, w.At(ri))
+						}
+					}
+				}
+			}
+		}
+	}
+	switch {
+	case n < 3:
+		c.Add("FANOUT", "anchor:reply-read-after-success", core.Undecided, "", fmt.Sprintf("found %d shard calls whose error is tested and whose reply is a local, expected at least 3", n), props...)
+	case len(bads) > 0:
+		sort.Strings(bads)
+		c.Add("FANOUT", "reply-read-after-success", core.Violation, bads[0], "the reply of a shard call is read on a way that has not seen the call succeed ("+strings.Join(dedupe(bads), ", ")+"): after a failed call it holds what the handler had collected before it failed, for instance the ids of a batch that was rolled back", props...)
+	default:
+		c.Add("FANOUT", "reply-read-after-success", core.OK, "", fmt.Sprintf("%d calls", n), props...)
+	}
+}
+
+// schemaVisitsBothLists: Query.ValidateSchema checks the sub-queries of _and and of _or, each list
+// read from its own field. The executor runs the list its property names; a validator that looks
+// at "the" sub-queries (one list if it is non-empty, else the other) leaves the executed list of a
+// query that carries both unchecked: a vector of the wrong length reaches the kernels.
+func schemaVisitsBothLists(w *load.World, c *core.Collector) {
+	props := []string{"C18"}
+	f := w.Method("/models", "Query", "ValidateSchema")
+	if f == nil {
+		c.Add("VALID", "anchor:ValidateSchema", core.Undecided, "", "models.Query.ValidateSchema not found", props...)
+		return
+	}
+	var origin func(v ssa.Value, depth int) map[string]bool
+	origin = func(v ssa.Value, depth int) map[string]bool {
+		out := map[string]bool{}
+		if depth > 6 || v == nil {
+			return out
+		}
+		switch x := v.(type) {
+		case *ssa.UnOp:
+			return origin(x.X, depth+1)
+		case *ssa.IndexAddr:
+			return origin(x.X, depth+1)
+		case *ssa.Index:
+			return origin(x.X, depth+1)
+		case *ssa.Extract:
+			return origin(x.Tuple, depth+1)
+		case *ssa.Next:
+			return origin(x.Iter, depth+1)
+		case *ssa.Range:
+			return origin(x.X, depth+1)
+		case *ssa.Slice:
+			return origin(x.X, depth+1)
+		case *ssa.Alloc:
+			for _, r := range *x.Referrers() {
+				if st, ok := r.(*ssa.Store); ok && st.Addr == ssa.Value(x) {
+					for k := range origin(st.Val, depth+1) {
+						out[k] = true
+					}
+				}
+			}
+		case *ssa.Phi:
+			for _, e := range x.Edges {
+				for k := range origin(e, depth+1) {
+					out[k] = true
+				}
+			}
+		case *ssa.Field:
+			if st := ssax.StructOf(x.X.Type()); st != nil && strings.HasSuffix(ssax.TypeName(x.X.Type()), "models.Query") {
+				out[st.Field(x.Field).Name()] = true
+			}
+		case *ssa.FieldAddr:
+			if st := ssax.StructOf(x.X.Type()); st != nil && strings.HasSuffix(ssax.TypeName(x.X.Type()), "models.Query") {
+				out[st.Field(x.Field).Name()] = true
+			}
+		case *ssa.Call:
+			if g := x.Call.StaticCallee(); g != nil && ssax.InModule(g) {
+				for _, gb := range g.Blocks {
+					if r, ok := gb.Instrs[len(gb.Instrs)-1].(*ssa.Return); ok && len(r.Results) > 0 {
+						for k := range origin(ssax.ReturnOperand(r, 0), depth+1) {
+							out[k] = true
+						}
+					}
+				}
+			}
+		}
+		return out
+	}
+	covered := map[string]bool{}
+	bad := ""
+	for _, g := range append([]*ssa.Function{f}, f.AnonFuncs...) {
+		for _, b := range g.Blocks {
+			for _, in := range b.Instrs {
+				call, ok := in.(*ssa.Call)
+				if !ok || call.Call.StaticCallee() != f || len(call.Call.Args) == 0 {
+					continue
+				}
+				o := origin(call.Call.Args[0], 0)
+				var ks []string
+				for k := range o {
+					if k == "And" || k == "Or" {
+						ks = append(ks, k)
+					}
+				}
+				sort.Strings(ks)
+				switch len(ks) {
+				case 0: // the filter of an option block, not a list
+				case 1:
+					covered[ks[0]] = true
+				default:
+					bad = w.At(in)
+				}
+			}
+		}
+	}
+	switch {
+	case bad != "":
+		c.Add("VALID", "schema-visits-both-lists", core.Violation, bad, "the sub-queries that are checked against the schema here come from \"one of\" the _and and _or lists, not from a list of their own: a query that carries both has the list its property executes left unchecked", props...)
+	case !covered["And"] || !covered["Or"]:
+		c.Add("VALID", "schema-visits-both-lists", core.Violation, w.Position(f.Pos()), "ValidateSchema does not descend into both the _and and the _or list of a query", props...)
+	default:
+		c.Add("VALID", "schema-visits-both-lists", core.OK, w.Position(f.Pos()), "", props...)
+	}
+}
